@@ -20,3 +20,10 @@ func tierN(tier string, quick, thorough int) int {
 func countFn(quick, thorough int) func(string) int {
 	return func(t string) int { return tierN(t, quick, thorough) }
 }
+
+func trunc(s string, n int) string {
+	if len(s) > n {
+		return s[:n] + "..."
+	}
+	return s
+}
